@@ -144,6 +144,19 @@ def filters_of(mods, root="r"):
     return fs
 
 
+def batch_alias(ev, mods, imps, subjects, acc):
+    """'should not import anything' == 'should not import modules except' the subjects themselves,
+    for a batch of pairwise unrelated subjects (the rewrite the documentation describes)."""
+    HUB.case = {"kind": "batch_alias", "mods": mods, "imps": imps, "subjects": subjects}
+    for d in rrule.DIRS:
+        a = run(mk_rule({"verb": "should_not", "dir": d, "exc": False, "subs": subjects, "objs": [], "anything": True}), ev)[0]
+        b = run(mk_rule({"verb": "should_not", "dir": d, "exc": True, "subs": subjects, "objs": subjects, "anything": False}), ev)[0]
+        acc.evaluated(2)
+        acc.count("law_alias_batch")
+        if a != b:
+            HUB.violation("C12", f"alias-batch:{d}", f"'should not ... anything' gave {a}, 'should not ... except themselves' gave {b} for subjects {subjects}", {"case": HUB.case})
+
+
 def one_family(ev, mods, imps, s, o, acc, fid, mono_edges):
     out = eval_family(ev, mods, imps, s, o, acc, fid)
     acc.count("families")
@@ -226,6 +239,12 @@ def randomised(spec, acc):
                 continue
             edges = rnd.sample(unrel, min(len(unrel), 3))
             one_family(ev, mods, imps, s, o, acc, f"r{n}", edges)
+            from ..drive import pick_unrelated
+
+            kind = rnd.choice(["named", "sub"])
+            batch = pick_unrelated(rnd, mods, rnd.randint(2, 3), kind=kind)
+            if len(batch) >= 2:
+                batch_alias(ev, mods, imps, [(kind, b) for b in batch], acc)
             n += 1
             if n % 97 == 1:
                 acc.sample({"kind": "family", "modules": mods, "imports": imps, "subject": s, "object": o, "added_for_monotonicity": edges})
@@ -234,6 +253,9 @@ def randomised(spec, acc):
 def replay(case, acc):
     mods = case["mods"]
     imps = [tuple(i) for i in case["imps"]]
+    if case["kind"] == "batch_alias":
+        batch_alias(build(mods, imps), mods, imps, [tuple(x) for x in case["subjects"]], acc)
+        return
     s, o = tuple(case["s"]), tuple(case["o"])
     ev = build(mods, imps)
     extra = [tuple(case["added"])] if case.get("added") else []
